@@ -58,6 +58,7 @@ func writeEvidence(prop, tier string, seed int, outs []*harnessOutcome, ld *load
 		ConcLoss      map[string]int64  `json:"text_only_concretisations,omitempty"`
 		NativeCalls   map[string]int64  `json:"native_calls"`
 		Lemmas        []lemmaResult     `json:"regular_language_lemmas,omitempty"`
+		DiffLines     int               `json:"engine_vs_native_result_lines_compared,omitempty"`
 	}
 	var hev []hEv
 	funcs := map[string]int{}
@@ -77,6 +78,7 @@ func writeEvidence(prop, tier string, seed int, outs []*harnessOutcome, ld *load
 			Deadlocks: r.Deadlocks, Covers: r.Covers, Asserts: r.Asserts, AssertsSym: r.AssertsSymbolic,
 			Violations: len(o.newV), Spurious: len(o.spur), ConcLoss: r.ConcLoss, NativeCalls: r.NativeCalls}
 		e.Lemmas = o.lemmas
+		e.DiffLines = o.diffLines
 		for _, l := range o.lemmas {
 			obligations++
 			queries++
